@@ -1,0 +1,28 @@
+#ifndef OSMIUM_UTIL_VERIF_HOOKS_HPP
+#define OSMIUM_UTIL_VERIF_HOOKS_HPP
+
+/*
+ * Verification hooks. Without -DOSMIUM_VERIF everything in here expands to
+ * nothing. With it, OSMIUM_VERIF_POINT(tag, obj, arg) calls the function
+ * osmium_verif_point() if (and only if) the program linking against the
+ * library defines it: it is used by external verification harnesses to trace
+ * and perturb the schedule at lock-granular points of the thread-safe queue
+ * and the thread pool.
+ */
+
+#ifdef OSMIUM_VERIF
+
+#include <cstddef>
+
+extern "C" void osmium_verif_point(const char* tag, const void* obj, std::size_t arg) __attribute__((weak));
+
+# define OSMIUM_VERIF_POINT(tag, obj, arg) \
+    do { if (osmium_verif_point) { osmium_verif_point((tag), (obj), (arg)); } } while (false)
+
+#else
+
+# define OSMIUM_VERIF_POINT(tag, obj, arg) do { } while (false)
+
+#endif
+
+#endif // OSMIUM_UTIL_VERIF_HOOKS_HPP
